@@ -149,7 +149,7 @@ claim("C11", E2,
       "the environment is never stepped after an episode end without reset (asserted inside the environment stub), no update-stub "
       "event before the documented warm-up step, and returned counter = start + executed; for DQN family, DDPG, TD3, TD3+LAP, SAC, "
       "TD7, MR.Q with budgets K in {0..5} and global_step in {0,2}.",
-      LOOPNOTE + " Also covered: generate_rollout, uniform task sampling and SMT (both stages) with train_st replaced by its contract (per-task totals = executed steps <= budget), RoundRobin / DUCB / DUCBGeneralized selectors (valid ids, strict alternation, initial round-robin, arg-max afterwards). Not covered: the active-MT scheduler, on-policy training loops' budgets.",
+      LOOPNOTE + " Also covered: generate_rollout, uniform task sampling, SMT (both stages) and active multi-task training with train_st replaced by its contract (per-task totals = executed steps <= budget), RoundRobin / DUCB / DUCBGeneralized selectors (valid ids, strict alternation, initial round-robin, arg-max afterwards). Not covered: on-policy training loops' budgets.",
       "path-forking symbolic execution of the training-loop code objects (bounded steps), per-path SMT validity of the accounting equations",
       "DESIGN.md §3 C11, §2 F-LOOP")
 NOT_APPLICABLE.pop("C11", None)
